@@ -195,7 +195,7 @@ func runC13(o Opts) {
 	for _, in := range readCorpus[c13Input](o.Corpus) {
 		emit(in, []string{"corpus"}, "corpus")
 	}
-	nh, nd, nb := 160, 450, 60
+	nh, nd, nb := 400, 900, 150
 	if o.Tier == "thorough" {
 		nh, nd, nb = 3000, 8000, 1500
 	}
